@@ -358,6 +358,12 @@ def execute(case, ctx):
         raise Violation("C07/inproc/output-differs/%s" % kind,
                         "%s\n%s\n%s" % (where, taint,
                                         _first_diff(o1.stdout, o2.stdout)))
+    if s1.restarts:
+        # (not a verdict: the output is reproducible all the same; but two
+        # parts of the run - say the random graph and the random charges -
+        # are then built from the same numbers)
+        ctx.note("the random stream was restarted with the same seed after "
+                 "numbers had been drawn")
     if s1.draws and case["random"]:
         ctx.probe("random command reproduced")
     if case["seed"] == 0:
